@@ -250,6 +250,53 @@ def envOf {DL Loc : Type} (m : Manager DL Loc) (id : Option String) (offset : Na
   | none => ⟨.noSymbols, fun _ => none, m.fileLen⟩
   | some l => ⟨l.lookup offset, m.locationFor l.dfl, m.fileLen⟩
 
+/-! ### The request body: `moduleOffset` is a `0x`-prefixed hex string (`samply-api/src/hex.rs:23-37`) -/
+
+/-- one digit of `u32::from_str_radix(_, 16)` -/
+def hexDigitVal (c : Char) : Option Nat :=
+  if '0' ≤ c ∧ c ≤ '9' then some (c.toNat - '0'.toNat)
+  else if 'a' ≤ c ∧ c ≤ 'f' then some (c.toNat - 'a'.toNat + 10)
+  else if 'A' ≤ c ∧ c ≤ 'F' then some (c.toNat - 'A'.toNat + 10)
+  else none
+
+/-- the digits of `u32::from_str_radix(_, 16)`: at least one, hex digits of either case, value below `2^32` -/
+def hexDigitsU32 (ds : List Char) : Option Nat :=
+  match ds with
+  | [] => none
+  | _ =>
+    match ds.mapM hexDigitVal with
+    | none => none
+    | some vs =>
+      let n := vs.foldl (fun a d => a * 16 + d) 0
+      if n < 4294967296 then some n else none
+
+/-- `u32::from_str_radix(s, 16)`: one optional leading `+` (not alone; no `-` for an unsigned type) -/
+def fromStrRadix16U32 (s : List Char) : Option Nat :=
+  match s with
+  | '+' :: d :: more => hexDigitsU32 (d :: more)
+  | _ => hexDigitsU32 s
+
+/-- `from_prefixed_hex_str`: `strip_prefix("0x")` (hex.rs:29-35), then `u32::from_str_radix(s, 16)` (hex.rs:36).
+`none` = the deserialisation error that makes the whole body fail to parse (mod.rs:49). -/
+def parseModuleOffset (cs : List Char) : Option Nat :=
+  match cs with
+  | '0' :: 'x' :: rest => fromStrRadix16U32 rest
+  | _ => none
+
+/-- A request body field by field. -/
+structure RawRequest where
+  /-- the body is a JSON object with string members `debugName`, `debugId`, `moduleOffset`, `file` -/
+  wellFormedJson : Bool
+  offsetStr : List Char
+  /-- `to_debug_id(debug_id)` (lib.rs:161-169): `none` = not a breakpad id, or the nil id -/
+  debugId : Option String
+  file : String
+
+def RawRequest.toOffsetRequest (r : RawRequest) : OffsetRequest :=
+  match parseModuleOffset r.offsetStr with
+  | none => ⟨false, r.debugId, 0, r.file⟩
+  | some o => ⟨r.wellFormedJson, r.debugId, o, r.file⟩
+
 /-- `/source/v1` for `(library, offset, file)` on a manager. -/
 def sourceApiAt {DL Loc : Type} (apiPath : SourceFilePath → String) (m : Manager DL Loc)
     (rq : OffsetRequest) : Result Loc :=
